@@ -205,6 +205,7 @@ def run(ctx):
     line_queries_share_one_matcher(ctx, "R17-h")
     import c04
     c04.name_scopes(ctx, "R17-i")     # shared with C04: the early exit for unselected items must not leak their skip names
+    empty_ranges_select_nothing(ctx, "R17-j")
 
 
 def hull_guards(ctx, rid):
@@ -369,3 +370,59 @@ def line_queries_share_one_matcher(ctx, rid):
                         % ("reads the range table itself" if (own or reads_table) else "never calls file_range_matches"),
                         ["%s:%d" % (f.file, f.line)])
     r.floor(rid, n, 3, "query methods of FileLines")
+
+
+def empty_ranges_select_nothing(ctx, rid):
+    """R17-j: a range with lo > hi intersects nothing and is adjacent to nothing"""
+    import re
+    p, r = ctx.p, ctx.r
+    r.rule(rid, "file_lines::Range::intersects and Range::adjacent_to — behind every `out_of_file_lines_range!` test and behind "
+                "the merging of ranges — answer anything other than the constant `false` only on paths that have decided "
+                "that *both* ranges are non-empty (`is_empty` false, or the comparison `lo > hi` false in any spelling). A range "
+                "with lo > hi (`[7,6]`: what a diff-driven caller emits for a pure deletion) selects no line; the textbook "
+                "overlap test `a.lo <= b.hi && b.lo <= a.hi` without the guard says that it intersects every item that spans "
+                "it, and the item is reformatted — an empty selection formats nothing")
+    n = 0
+    for name in ("intersects", "adjacent_to"):
+        fs = [g for g in p.by_crate["rustfmt_nightly"] if g.id.endswith("file_lines::Range::" + name)]
+        if len(fs) != 1:
+            r.undecidable(rid, "file_lines::Range::%s not found" % name)
+            continue
+        f = fs[0]
+        try:
+            paths = explore(f, pure=lambda c: not c.name.endswith("Range::is_empty"), program=p, inline="auto", max_paths=5000)
+        except TooManyPaths as e:
+            r.undecidable(rid, str(e))
+            continue
+        r.paths(rid, len(paths))
+
+        def nonempty(decs, a):
+            for k, v in decs:
+                if not isinstance(v, bool):
+                    continue
+                k = k.strip("()")
+                if k in ("%s.lo Gt %s.hi" % (a, a), "%s.hi Lt %s.lo" % (a, a)) and v is False:
+                    return True
+                if k in ("%s.lo Le %s.hi" % (a, a), "%s.hi Ge %s.lo" % (a, a)) and v is True:
+                    return True
+                if re.search(r"Range::is_empty\(%s\)$" % a, k) and v is False:
+                    return True
+            return False
+        bad = 0
+        for pa in paths:
+            if pa.end != "ret" or pa.ret is None:
+                continue
+            n += 1
+            if pa.ret[0] == "k" and pa.ret[1] is False:
+                continue
+            ok = nonempty(pa.decisions, "arg1") and nonempty(pa.decisions, "arg2")
+            if not ok:
+                bad += 1
+                if bad == 1:
+                    r.violation(rid, "Range::%s answers `%s` for a range that may be empty" % (name, vkey(pa.ret)[:40]),
+                                "on the path %s the result is not `false` although %s has not been found non-empty: "
+                                "`--file-lines` with the empty range [7,6] formats the item that spans lines 6–7"
+                                % ([k for k, v in pa.decisions][:4], "a range"), ["%s:%d" % (f.file, f.line)])
+        r.instance(rid, "Range::%s: non-false answers only for two non-empty ranges" % name, "ok" if not bad else "violation",
+                   "%s:%d" % (f.file, f.line), "%d returning paths, %d unguarded" % (len(paths), bad))
+    r.floor(rid, n, 6, "returning paths of Range::intersects / adjacent_to")
